@@ -28,11 +28,13 @@ import tokenize
 import gin
 
 BOUNDS = ('literal texts: nesting depth <= 3, <= 4 elements per container, atoms from a '
-          '70-element alphabet (int/float/complex forms, every string/bytes prefix, quote '
-          'style and escape class, adjacent concatenations with empty pieces, True/False/'
-          'None), 7 layouts x 4 statement contexts x 3 placements after "="; near-misses: '
-          'one edit of such a text (13 edit kinds). quick: 1 fixed corner list + 3000 '
-          'sampled literals + 1500 sampled near-misses; thorough: 150000 + 60000.')
+          '61-atom alphabet (int/float/complex forms, every string/bytes prefix, quote '
+          'style and escape class, True/False/None) plus 15 adjacent concatenations with '
+          'empty pieces; 7 layouts x 4 statement contexts (flat, block member, macro, '
+          'between two bindings) x 3 placements after "=" x 3 line endings; near-misses: '
+          'one edit of a one-line text of that grammar (15 edit kinds) x 4 contexts. quick: '
+          '156 fixed corner cases + 3000 sampled literals + 1500 sampled near-misses; '
+          'thorough: 150000 + 60000 sampled.')
 EXHAUSTIVE = {'quick': False, 'thorough': False}
 
 INTS = ['0', '7', '-3', '0x1F', '0Xff', '-0x10', '0o17', '0b101', '1_000', '-0', '00',
@@ -170,7 +172,7 @@ def _subst(node, path, new):
 
 MISS_KINDS = ['operator', 'del_bracket', 'bare_name', 'comprehension', 'trailing_token',
               'sign', 'comma', 'dict_item', 'call_attr', 'mismatch', 'fstring', 'empty',
-              'minus_ref']
+              'minus_ref', 'bad_number', 'bad_string']
 
 
 def _near_miss(rng, kind):
@@ -232,6 +234,12 @@ def _near_miss(rng, kind):
                          "'a' b'b'", "b'a' 'b'", "u'a' b''", "ub'a'", "'\\N{NOSUCH}'"])
     if kind == 'empty':
       return rng.choice(['', '#', '# 1', '\\', ',', '=', ':', '.'])
+    if kind == 'bad_number' and a:
+      return swap(rng.choice(['1__0', '1_', '0xg', '01', '1e', '0b2', '1.2.3', '1j2', '0o8',
+                              '1e+', '0x', '1_000_', '1.e', '9a', '-01']))
+    if kind == 'bad_string' and a:
+      return swap(rng.choice(["'abc", '"a\'', "'''a", "'a\\'", "'a''", "b'\u00e9'", "'a'b",
+                              "rb'a' r'b'", "'\\x4'", "b'a", "''''"]))
     if kind == 'minus_ref':
       ref = rng.choice(['-%m', '-@x', '-@x()', '- %m', '-%sc/m', '-@sc/x'])
       return rng.choice(['%s', '[%s]', '{1: %s}', '(%s,)', '[1, %s]']).replace('%s', ref)
